@@ -240,7 +240,10 @@ def _w_scale(res, p):
     base = [z3.And(z > 0, z <= 4) for z in names.values()]
     records = []
     res.nontrivial()
-    res.fn(U.scale_and_discretize)
+    try:  # evidence only: a renamed private helper must not break the check
+        res.fn(U.scale_and_discretize)
+    except AttributeError:
+        pass
 
     def fn(ex):
         ws = [ST.SV(names[f"w{i}"]) for i in range(k)]
@@ -348,7 +351,10 @@ def _w_represent(res, p):
     base = [z >= 0 for z in names.values()] + [sum(names.values()) == 1]
     records = []
     res.nontrivial()
-    res.fn(MM.Measurements.get_measurements_representing_distribution, MM._check_sample_elimination)
+    try:  # evidence only: a renamed private helper must not break the check
+        res.fn(MM.Measurements.get_measurements_representing_distribution, MM._check_sample_elimination)
+    except AttributeError:
+        pass
     stub = ChoiceStub()
 
     def fn(ex):
@@ -482,7 +488,10 @@ def instances(tier, seed):
 def run(ctx):
     from orquestra.quantum.circuits import _itertools as IT
 
-    ctx.fn(IT._expand_sample_size, IT.expand_sample_sizes, IT.combine_measurement_counts, IT.combine_bitstrings, IT._combine_measurements, IT.split_into_batches, IT._iterate_in_batches)
+    try:  # evidence only: a renamed private helper must not break the check
+        ctx.fn(IT._expand_sample_size, IT.expand_sample_sizes, IT.combine_measurement_counts, IT.combine_bitstrings, IT._combine_measurements, IT.split_into_batches, IT._iterate_in_batches)
+    except AttributeError:
+        pass
     tmo = 40 if ctx.tier == "quick" else 240
     only = getattr(ctx, "only", None)
     if not only or only.startswith("h_") or only == "xh":
